@@ -43,15 +43,22 @@ def plan(tier):
         {"h": "num_sub_big_i", "sym": "big integer a, y: isize"},
         {"h": "num_mul_ii_nowrap", "sym": SYM2},
         {"h": "num_mul_ii_small", "sym": "x: isize, |y| <= 2^15"},
-        {"h": "num_truncate_quotient_ii", "sym": SYM2},
-        {"h": "num_truncate_remainder_ii", "sym": SYM2},
-        {"h": "num_floor_quotient_ii", "sym": SYM2},
-        {"h": "num_floor_remainder_ii", "sym": SYM2},
-        {"h": "num_euclidean_quotient_ii", "sym": SYM2},
-        {"h": "num_euclidean_remainder_ii", "sym": SYM2},
+        {"h": "num_truncate_quotient_ii", "sym": "|x| <= 2^12, |y| <= 2^6 (all signs, zero divisor)"},
+        {"h": "num_truncate_quotient_edge", "sym": "x within 3 of isize::MIN/MAX, |y| <= 3"},
+        {"h": "num_truncate_remainder_ii", "sym": "|x| <= 2^12, |y| <= 2^6 (all signs, zero divisor)"},
+        {"h": "num_truncate_remainder_edge", "sym": "x within 3 of isize::MIN/MAX, |y| <= 3"},
+        {"h": "num_floor_quotient_ii", "sym": "|x| <= 2^12, |y| <= 2^6 (all signs, zero divisor)"},
+        {"h": "num_floor_quotient_edge", "sym": "x within 3 of isize::MIN/MAX, |y| <= 3"},
+        {"h": "num_floor_remainder_ii", "sym": "|x| <= 2^12, |y| <= 2^6 (all signs, zero divisor)"},
+        {"h": "num_floor_remainder_edge", "sym": "x within 3 of isize::MIN/MAX, |y| <= 3"},
+        {"h": "num_euclidean_quotient_ii", "sym": "|x| <= 2^12, |y| <= 2^6 (all signs, zero divisor)"},
+        {"h": "num_euclidean_quotient_edge", "sym": "x within 3 of isize::MIN/MAX, |y| <= 3"},
+        {"h": "num_euclidean_remainder_ii", "sym": "|x| <= 2^12, |y| <= 2^6 (all signs, zero divisor)"},
+        {"h": "num_euclidean_remainder_edge", "sym": "x within 3 of isize::MIN/MAX, |y| <= 3"},
         {"h": "num_exact_integer_sqrt_small", "sym": "0 <= x < 2^12"},
     ]
-    # not covered (measured): num_floor_remainder_i_big (real num-bigint division: solver out of memory),
+    # not covered (measured): full-width division (two divider circuits: > 2400 s each), (isize::MIN, -1) for
+    # euclidean-remainder (num-bigint division is inline assembly), num_floor_remainder_i_big (real num-bigint division: solver out of memory),
     # num_expt_* (expt with concrete exponent -2/-3 and |base| <= 12: 900 s timeout),
     # 64x64-bit product equality, gcd/lcm, number<->string
     return q + (t if tier == "thorough" else [])
